@@ -1,4 +1,5 @@
 import CCV.Lemmas.Compare
+import CCV.Lemmas.CompareArr
 /-
   C16 — comparison operations equal integer comparison.
   Property theorems only; helper lemmas live in CCV/Lemmas/Compare.lean.
@@ -6,6 +7,14 @@ import CCV.Lemmas.Compare
   Bit strings are `List Bool`, index 0 least significant; `toBits w n` = the `w` low bits of `n`;
   `toInt w n` = the two's-complement integer of the `w`-bit pattern `n`;
   `Op.spec` = the six relations on integers.
+
+  Array layer (second half): model CCV/Model/CompareArr.lean (`cmpArr`, `minArr`, `maxArr` are what
+  the driver executes for the `arr` requests), lemmas in CCV/Lemmas/CompareArr.lean.  A bit array of
+  shape `r ++ [w]` is the row-major list of its bits; `strAt r w xs K` is the bit string stored at
+  multi-index `K` (bit `k` = entry `K ++ [k]`); `bcIdx r J` is the NumPy broadcast position of the
+  result index `J` in an operand of leading shape `r` (last `r.length` digits of `J`, digit 0 on
+  axes of size 1); `TI.broadcastShapes` is the model of `broadcast_shapes` (broadcast.rs) that type
+  inference uses; `flat J rr` is the row-major position of `J`.
 -/
 namespace CCV.C16
 open CCV CCV.Compare
@@ -145,5 +154,236 @@ theorem max_signed (w a b : Nat) (hw : 2 ≤ w) (ha : a < 2 ^ w) (hb : b < 2 ^ w
 example : (minBits true (toBits 3 3) (toBits 3 4)).map ofBits = some 4
     ∧ (maxBits false (toBits 3 3) (toBits 3 4)).map ofBits = some 4
     ∧ (maxBits true (toBits 3 3) (toBits 3 4)).map ofBits = some 3 := by decide
+
+/-! ## whole arrays: shapes, broadcasting, `pull_out_bits`, `normalize_cmp`, `Mux` -/
+
+open CCV.Shape CCV.CompareArr
+
+/-- `expand_dims(x, 0..k)` (what `expand_to_same_dims` calls) prepends `k` axes of size 1. -/
+theorem expand_dims_front (k : Nat) (s : List Nat) :
+    expandDims s (List.range k) = List.replicate k 1 ++ s := expandDims_range k s
+
+example : expandToSameDims [2, 3, 64] [3, 64] = ([2, 3, 64], [1, 3, 64]) := by decide
+
+/-- **`pull_out_bits`** moves the bit axis first: the shape becomes `w :: r` and entry `(k, J)` of the
+    result is entry `(J, k)` of the operand, for every shape (all dimensions positive). -/
+theorem pull_out_bits_spec (r : List Nat) (w : Nat) (xs : List Nat) (hlen : xs.length = prod (r ++ [w]))
+    (hpos : pos (r ++ [w])) :
+    (pullOutBits (r ++ [w]) xs).1 = w :: r ∧
+      ∀ J k, validIdx J r → k < w →
+        (pullOutBits (r ++ [w]) xs).2.getD (flat (k :: J) (w :: r)) 0
+          = xs.getD (flat (J ++ [k]) (r ++ [w])) 0 :=
+  ⟨pullOutBits_shape r w xs, fun J k hJ hk => pullOutBits_getD r w xs hlen hpos J hJ k hk⟩
+
+example : pullOutBits [2, 3] [1, 0, 1, 0, 1, 1] = ([3, 2], [1, 0, 0, 1, 1, 1]) := by decide
+
+/-- **`put_in_bits`** (the inverse movement; used by the sibling bit operations, not by the comparison
+    graphs) moves the first axis last: shape `r ++ [w]`, entry `(J, k)` of the result is entry
+    `(k, J)` of the operand. -/
+theorem put_in_bits_spec (r : List Nat) (w : Nat) (xs : List Nat) (hlen : xs.length = prod (w :: r))
+    (hpos : pos (w :: r)) :
+    (putInBits (w :: r) xs).1 = r ++ [w] ∧
+      ∀ J k, validIdx J r → k < w →
+        (putInBits (w :: r) xs).2.getD (flat (J ++ [k]) (r ++ [w])) 0
+          = xs.getD (flat (k :: J) (w :: r)) 0 :=
+  ⟨putInBits_shape r w xs, fun J k hJ hk => putInBits_getD r w xs hlen hpos J hJ k hk⟩
+
+/-- `put_in_bits ∘ pull_out_bits` gives back the shape and every entry of the operand. -/
+theorem put_in_bits_pull_out_bits (r : List Nat) (w : Nat) (xs : List Nat)
+    (hlen : xs.length = prod (r ++ [w])) (hpos : pos (r ++ [w])) :
+    (putInBits (pullOutBits (r ++ [w]) xs).1 (pullOutBits (r ++ [w]) xs).2).1 = r ++ [w] ∧
+      ∀ J k, validIdx J r → k < w →
+        (putInBits (pullOutBits (r ++ [w]) xs).1 (pullOutBits (r ++ [w]) xs).2).2.getD
+            (flat (J ++ [k]) (r ++ [w])) 0
+          = xs.getD (flat (J ++ [k]) (r ++ [w])) 0 := by
+  have hl : (pullOutBits (r ++ [w]) xs).2.length = prod (w :: r) := by
+    rw [pullOutBits_length, hlen, prod_append]
+    simp [prod, Nat.mul_comm]
+  have hp : pos (w :: r) := by
+    intro d hd
+    apply hpos d
+    rcases List.mem_cons.mp hd with h | h
+    · simp [h]
+    · exact List.mem_append_left _ h
+  rw [pullOutBits_shape]
+  refine ⟨putInBits_shape r w _, fun J k hJ hk => ?_⟩
+  rw [putInBits_getD r w _ hl hp J hJ k hk]
+  exact pullOutBits_getD r w xs hlen hpos J hJ k hk
+
+example : putInBits [3, 2] [1, 0, 0, 1, 1, 1] = ([2, 3], [1, 0, 1, 0, 1, 1]) := by decide
+
+/-- **Result shape of the six comparisons** on operands of shapes `ra ++ [w]`, `rb ++ [w]`
+    (`w ≥ 1`, `w ≥ 2` when signed, positive dimensions): if the shapes without the bit axis broadcast
+    to `rr`, the operation is accepted and the result has shape `rr` (`[]` = scalar) with `prod rr`
+    entries, each 0 or 1; if they do not broadcast the operation is rejected. -/
+theorem cmp_array_shape (op : Op) (signed : Bool) (ra rb : List Nat) (w : Nat) (xs ys : List Nat)
+    (hw : 0 < w) (hs : signed = true → 2 ≤ w) (hpa : pos ra) (hpb : pos rb)
+    (hla : xs.length = prod (ra ++ [w])) (hlb : ys.length = prod (rb ++ [w])) :
+    (∀ rr, TI.broadcastShapes ra rb = .ok rr →
+      ∃ out, cmpArr op signed (ra ++ [w]) xs (rb ++ [w]) ys = .ok (rr, out) ∧ out.length = prod rr ∧
+        ∀ x ∈ out, x ≤ 1) ∧
+    (∀ e, TI.broadcastShapes ra rb = .error e →
+      ∃ e', cmpArr op signed (ra ++ [w]) xs (rb ++ [w]) ys = .error e') := by
+  refine ⟨fun rr h => ?_, fun e h => cmpArr_err op signed ra rb w xs ys e h⟩
+  obtain ⟨out, h1, h2, _, h4⟩ := cmpArr_spec op signed ra rb rr w xs ys hw hs hpa hpb hla hlb h
+  exact ⟨out, h1, h2, h4⟩
+
+/-- shapes `[2,1,3]` and `[2,3]` (bit axis last, `w = 3`): result shape `[2,2]`; `[2,3]`, `[3,3]`: rejected -/
+example : TI.broadcastShapes [2, 1] [2] = .ok [2, 2] ∧
+    cmpArr .lt false [2, 1, 3] [1, 0, 1, 0, 1, 1] [2, 3] [0, 1, 1, 1, 1, 1] = .ok ([2, 2], [1, 1, 0, 1]) ∧
+    (∃ e, cmpArr .lt false [2, 3] [1, 0, 1, 0, 1, 1] [3, 3] [0, 1, 1, 1, 1, 1, 0, 0, 0] = .error e) :=
+  ⟨by decide, by decide, ⟨_, rfl⟩⟩
+
+/-- **Element-wise statement, any shapes that broadcast, any width**: for every multi-index `J` of the
+    result, the output entry at `J` is the single-pair operation `compare` (the subject of the
+    theorems above) applied to the bit strings found at the broadcast positions of `J` in the two
+    operands. -/
+theorem cmp_array_elem (op : Op) (signed : Bool) (ra rb rr : List Nat) (w : Nat) (xs ys : List Nat)
+    (hw : 0 < w) (hs : signed = true → 2 ≤ w) (hpa : pos ra) (hpb : pos rb)
+    (hla : xs.length = prod (ra ++ [w])) (hlb : ys.length = prod (rb ++ [w]))
+    (hbc : TI.broadcastShapes ra rb = .ok rr) :
+    ∃ out, cmpArr op signed (ra ++ [w]) xs (rb ++ [w]) ys = .ok (rr, out) ∧
+      ∀ J, validIdx J rr → ∃ c,
+        compare op signed (strAt ra w xs (bcIdx ra J)) (strAt rb w ys (bcIdx rb J)) = some c ∧
+        out.getD (flat J rr) 0 = if c then 1 else 0 := by
+  obtain ⟨out, h1, _, h3, _⟩ := cmpArr_spec op signed ra rb rr w xs ys hw hs hpa hpb hla hlb hbc
+  refine ⟨out, h1, fun J hJ => ?_⟩
+  obtain ⟨c, hc⟩ := compare_some op signed (strAt ra w xs (bcIdx ra J)) (strAt rb w ys (bcIdx rb J))
+    (by simp [strAt_length]) (by simp [strAt_length]; omega) (by simpa [strAt_length] using hs)
+  refine ⟨c, hc, ?_⟩
+  rw [h3 J hJ, hc]
+  cases c <;> rfl
+
+/-- **Unsigned comparisons on whole arrays**: entry `J` of the result is 1 iff the naturals encoded by
+    the operand strings at the broadcast positions of `J` are in the relation. -/
+theorem cmp_array_unsigned (op : Op) (ra rb rr : List Nat) (w : Nat) (xs ys : List Nat)
+    (hw : 0 < w) (hpa : pos ra) (hpb : pos rb)
+    (hla : xs.length = prod (ra ++ [w])) (hlb : ys.length = prod (rb ++ [w]))
+    (hbc : TI.broadcastShapes ra rb = .ok rr) :
+    ∃ out, cmpArr op false (ra ++ [w]) xs (rb ++ [w]) ys = .ok (rr, out) ∧
+      ∀ J, validIdx J rr → out.getD (flat J rr) 0 =
+        if op.spec (ofBits (strAt ra w xs (bcIdx ra J))) (ofBits (strAt rb w ys (bcIdx rb J))) then 1 else 0 := by
+  obtain ⟨out, h1, h2⟩ := cmp_array_elem op false ra rb rr w xs ys hw (by simp) hpa hpb hla hlb hbc
+  refine ⟨out, h1, fun J hJ => ?_⟩
+  obtain ⟨c, hc, ho⟩ := h2 J hJ
+  have hne : strAt ra w xs (bcIdx ra J) ≠ [] := by
+    intro e; have := strAt_length ra w xs (bcIdx ra J); rw [e] at this; simp at this; omega
+  rw [compare_unsigned_bits op _ _ (by simp [strAt_length]) hne] at hc
+  injection hc with hc
+  rw [ho, hc]
+
+/-- **Signed comparisons on whole arrays** (`w ≥ 2`): entry `J` is 1 iff the two's-complement values of
+    the operand strings at the broadcast positions of `J` are in the relation. -/
+theorem cmp_array_signed (op : Op) (ra rb rr : List Nat) (w : Nat) (xs ys : List Nat)
+    (hw : 2 ≤ w) (hpa : pos ra) (hpb : pos rb)
+    (hla : xs.length = prod (ra ++ [w])) (hlb : ys.length = prod (rb ++ [w]))
+    (hbc : TI.broadcastShapes ra rb = .ok rr) :
+    ∃ out, cmpArr op true (ra ++ [w]) xs (rb ++ [w]) ys = .ok (rr, out) ∧
+      ∀ J, validIdx J rr → out.getD (flat J rr) 0 =
+        if op.spec (sval (strAt ra w xs (bcIdx ra J))) (sval (strAt rb w ys (bcIdx rb J))) then 1 else 0 := by
+  obtain ⟨out, h1, h2⟩ := cmp_array_elem op true ra rb rr w xs ys (by omega) (fun _ => hw) hpa hpb hla hlb hbc
+  refine ⟨out, h1, fun J hJ => ?_⟩
+  obtain ⟨c, hc, ho⟩ := h2 J hJ
+  rw [compare_signed_bits op _ _ (by simp [strAt_length]) (by simp [strAt_length]; exact hw)] at hc
+  injection hc with hc
+  rw [ho, hc]
+
+/-- `[2,1,3] × [2,3]`, signed `<`: a = (−3, −2) (patterns 5, 6), b = (−2, −1) (patterns 6, 7);
+    result `[[−3<−2, −3<−1], [−2<−2, −2<−1]]`; the operand positions of result index `[1,0]` -/
+example : cmpArr .lt true [2, 1, 3] [1, 0, 1, 0, 1, 1] [2, 3] [0, 1, 1, 1, 1, 1] = .ok ([2, 2], [1, 1, 0, 1]) ∧
+    validIdx [1, 0] [2, 2] ∧ bcIdx [2, 1] [1, 0] = [1, 0] ∧ bcIdx [2] [1, 0] = [0] ∧
+    sval (strAt [2, 1] 3 [1, 0, 1, 0, 1, 1] [1, 0]) = -2 ∧ sval (strAt [2] 3 [0, 1, 1, 1, 1, 1] [0]) = -2 :=
+  ⟨by decide, by simp [validIdx], by decide, by decide, by decide, by decide⟩
+
+/-- **Min / Max on whole arrays** (`normalize_cmp`, then the three broadcasting operations of `Mux`):
+    accepted with shape `rr ++ [w]`, and the output bit string at every result index `J` is the
+    single-pair `minBits` / `maxBits` of the operand strings at the broadcast positions of `J`
+    (operands are bit arrays: entries 0 or 1). -/
+theorem min_array_elem (signed : Bool) (ra rb rr : List Nat) (w : Nat) (xs ys : List Nat)
+    (hw : 0 < w) (hs : signed = true → 2 ≤ w) (hpa : pos ra) (hpb : pos rb)
+    (hla : xs.length = prod (ra ++ [w])) (hlb : ys.length = prod (rb ++ [w]))
+    (hxa : ∀ x ∈ xs, x ≤ 1) (hxb : ∀ x ∈ ys, x ≤ 1)
+    (hbc : TI.broadcastShapes ra rb = .ok rr) :
+    ∃ out, minArr signed (ra ++ [w]) xs (rb ++ [w]) ys = .ok (rr ++ [w], out) ∧
+      out.length = prod (rr ++ [w]) ∧
+      ∀ J, validIdx J rr →
+        minBits signed (strAt ra w xs (bcIdx ra J)) (strAt rb w ys (bcIdx rb J)) = some (strAt rr w out J) :=
+  minArr_spec signed ra rb rr w xs ys hw hs hpa hpb hla hlb hxa hxb hbc
+
+theorem max_array_elem (signed : Bool) (ra rb rr : List Nat) (w : Nat) (xs ys : List Nat)
+    (hw : 0 < w) (hs : signed = true → 2 ≤ w) (hpa : pos ra) (hpb : pos rb)
+    (hla : xs.length = prod (ra ++ [w])) (hlb : ys.length = prod (rb ++ [w]))
+    (hxa : ∀ x ∈ xs, x ≤ 1) (hxb : ∀ x ∈ ys, x ≤ 1)
+    (hbc : TI.broadcastShapes ra rb = .ok rr) :
+    ∃ out, maxArr signed (ra ++ [w]) xs (rb ++ [w]) ys = .ok (rr ++ [w], out) ∧
+      out.length = prod (rr ++ [w]) ∧
+      ∀ J, validIdx J rr →
+        maxBits signed (strAt ra w xs (bcIdx ra J)) (strAt rb w ys (bcIdx rb J)) = some (strAt rr w out J) :=
+  maxArr_spec signed ra rb rr w xs ys hw hs hpa hpb hla hlb hxa hxb hbc
+
+/-- **Min / Max on whole arrays, unsigned**: the output string at `J` is the operand string (at the
+    broadcast position of `J`) with the smaller / larger encoded natural. -/
+theorem min_max_array_unsigned (ra rb rr : List Nat) (w : Nat) (xs ys : List Nat)
+    (hw : 0 < w) (hpa : pos ra) (hpb : pos rb)
+    (hla : xs.length = prod (ra ++ [w])) (hlb : ys.length = prod (rb ++ [w]))
+    (hxa : ∀ x ∈ xs, x ≤ 1) (hxb : ∀ x ∈ ys, x ≤ 1)
+    (hbc : TI.broadcastShapes ra rb = .ok rr) :
+    ∃ omin omax, minArr false (ra ++ [w]) xs (rb ++ [w]) ys = .ok (rr ++ [w], omin) ∧
+      maxArr false (ra ++ [w]) xs (rb ++ [w]) ys = .ok (rr ++ [w], omax) ∧
+      ∀ J, validIdx J rr →
+        let A := strAt ra w xs (bcIdx ra J)
+        let B := strAt rb w ys (bcIdx rb J)
+        strAt rr w omin J = (if ofBits B < ofBits A then B else A) ∧
+        strAt rr w omax J = (if ofBits B < ofBits A then A else B) := by
+  obtain ⟨omin, h1, _, h2⟩ := minArr_spec false ra rb rr w xs ys hw (by simp) hpa hpb hla hlb hxa hxb hbc
+  obtain ⟨omax, h3, _, h4⟩ := maxArr_spec false ra rb rr w xs ys hw (by simp) hpa hpb hla hlb hxa hxb hbc
+  refine ⟨omin, omax, h1, h3, fun J hJ => ?_⟩
+  have hne : strAt ra w xs (bcIdx ra J) ≠ [] := by
+    intro e; have := strAt_length ra w xs (bcIdx ra J); rw [e] at this; simp at this; omega
+  have hl : (strAt ra w xs (bcIdx ra J)).length = (strAt rb w ys (bcIdx rb J)).length := by
+    simp [strAt_length]
+  have e1 := h2 J hJ
+  have e2 := h4 J hJ
+  rw [min_unsigned_bits _ _ hl hne] at e1
+  rw [max_unsigned_bits _ _ hl hne] at e2
+  injection e1 with e1
+  injection e2 with e2
+  exact ⟨e1.symm, e2.symm⟩
+
+/-- **Min / Max on whole arrays, signed** (`w ≥ 2`): the operand string with the smaller / larger
+    two's-complement value. -/
+theorem min_max_array_signed (ra rb rr : List Nat) (w : Nat) (xs ys : List Nat)
+    (hw : 2 ≤ w) (hpa : pos ra) (hpb : pos rb)
+    (hla : xs.length = prod (ra ++ [w])) (hlb : ys.length = prod (rb ++ [w]))
+    (hxa : ∀ x ∈ xs, x ≤ 1) (hxb : ∀ x ∈ ys, x ≤ 1)
+    (hbc : TI.broadcastShapes ra rb = .ok rr) :
+    ∃ omin omax, minArr true (ra ++ [w]) xs (rb ++ [w]) ys = .ok (rr ++ [w], omin) ∧
+      maxArr true (ra ++ [w]) xs (rb ++ [w]) ys = .ok (rr ++ [w], omax) ∧
+      ∀ J, validIdx J rr →
+        let A := strAt ra w xs (bcIdx ra J)
+        let B := strAt rb w ys (bcIdx rb J)
+        strAt rr w omin J = (if sval B < sval A then B else A) ∧
+        strAt rr w omax J = (if sval B < sval A then A else B) := by
+  obtain ⟨omin, h1, _, h2⟩ := minArr_spec true ra rb rr w xs ys (by omega) (fun _ => hw) hpa hpb hla hlb hxa hxb hbc
+  obtain ⟨omax, h3, _, h4⟩ := maxArr_spec true ra rb rr w xs ys (by omega) (fun _ => hw) hpa hpb hla hlb hxa hxb hbc
+  refine ⟨omin, omax, h1, h3, fun J hJ => ?_⟩
+  have hl : (strAt ra w xs (bcIdx ra J)).length = (strAt rb w ys (bcIdx rb J)).length := by
+    simp [strAt_length]
+  have h2' : 2 ≤ (strAt ra w xs (bcIdx ra J)).length := by simp [strAt_length]; exact hw
+  have e1 := h2 J hJ
+  have e2 := h4 J hJ
+  rw [min_signed_bits _ _ hl h2'] at e1
+  rw [max_signed_bits _ _ hl h2'] at e2
+  injection e1 with e1
+  injection e2 with e2
+  exact ⟨e1.symm, e2.symm⟩
+
+/-- `[2,1,3] × [2,3]`: min / max of a = (5, 6) against b = (6, 7) unsigned, shape `[2,2,3]`;
+    signed the same patterns are a = (−3, −2), b = (−2, −1) -/
+example : minArr false [2, 1, 3] [1, 0, 1, 0, 1, 1] [2, 3] [0, 1, 1, 1, 1, 1]
+      = .ok ([2, 2, 3], [1, 0, 1, 1, 0, 1, 0, 1, 1, 0, 1, 1]) ∧
+    maxArr true [2, 1, 3] [1, 0, 1, 0, 1, 1] [2, 3] [0, 1, 1, 1, 1, 1]
+      = .ok ([2, 2, 3], [0, 1, 1, 1, 1, 1, 0, 1, 1, 1, 1, 1]) ∧
+    strAt [2, 2] 3 [1, 0, 1, 1, 0, 1, 0, 1, 1, 0, 1, 1] [1, 0] = [false, true, true] := by decide
 
 end CCV.C16
